@@ -111,7 +111,7 @@ def expected_QueueIncoming : List String := [
 
 theorem skel_QueueIncoming_tie : ServerHttp.skel_QueueIncoming = expected_QueueIncoming := by decide +kernel
 
-/-- copy, then non-blocking send on the per-address send queue (dropped when full) (kcpWrite). -/
+/-- copy, then `trySend` of the copy to the client map (kcpWrite). -/
 def expected_WriteTo : List String := [
   "select{",
   "case:",
@@ -122,9 +122,20 @@ def expected_WriteTo : List String := [
   "do:",
   "}",
   "call copy(buf, p)",
+  "call c.clients.trySend(addr, buf)",
+  "return"
+]
+
+theorem skel_WriteTo_tie : ServerHttp.skel_WriteTo = expected_WriteTo := by decide +kernel
+
+/-- `trySend`: under the client map's lock, a non-blocking send on the per-address send queue (dropped when
+full); the lock also orders the send with the sweep that closes expired queues. -/
+def expected_trySend : List String := [
+  "call m.lock.Lock()",
+  "defer m.lock.Unlock()",
   "select{",
   "case:",
-  "send c.clients.SendQueue(addr)",
+  "send m.inner.SendQueue(addr, time.Now())",
   "do:",
   "return",
   "default:",
@@ -133,7 +144,7 @@ def expected_WriteTo : List String := [
   "}"
 ]
 
-theorem skel_WriteTo_tie : ServerHttp.skel_WriteTo = expected_WriteTo := by decide +kernel
+theorem skel_trySend_tie : ServerHttp.skel_trySend = expected_trySend := by decide +kernel
 
 /-- the per-address queue of the client map. -/
 def expected_OutgoingQueue : List String := [
